@@ -561,26 +561,35 @@ def check_session(sess, counters):
       end = first_finish.get(p, inf)
       if st < end:
         holds[sess.group_label(w)].append((st, end, w, p, next_call[(w, st)]))
+  next_calls = collections.defaultdict(list)
+  for e in events:
+    if e[2] == 'next-call':
+      next_calls[e[1]].append(e[0])
   for g, hs in sorted(holds.items()):
-    # The earliest split of the group decides (later ones are its consequences:
-    # the group's latest trial is no longer the one the first worker holds).
-    earliest = None
+    # The earliest-created "second" trial of the group decides (later splits
+    # are consequences: the group's latest trial is no longer the held one).
+    root = None
     for x, y in itertools.combinations(hs, 2):
       if x[2] == y[2]:
         continue
       c['group_hold_pairs_checked'] += 1
       if x[3] != y[3] and max(x[0], y[0]) < min(x[1], y[1]):
-        first, second = (x, y) if x[0] < y[0] else (y, x)
-        if earliest is None or second[0] < earliest[1][0]:
-          earliest = (first, second)
-    if earliest is not None:
-      first, second = earliest
-      mech = 'concurrent-next' if second[4] < first[0] else 'sequential-next'
-      bad('group-split', mech,
-          f'group {g}: worker {first[2]} held pending trial {by_pid[first[3]][0].id} during '
-          f'stamps [{first[0]}, {first[1]}) and worker {second[2]} was handed the different '
-          f'pending trial {by_pid[second[3]][0].id} at {second[0]} (its next() began at '
-          f'{second[4]})')
+        early, late = (x, y) if proposals[x[3]][0] < proposals[y[3]][0] else (y, x)
+        if root is None or proposals[late[3]][0] < proposals[root[1][3]][0]:
+          root = (early, late)
+    if root is not None:
+      early, late = root
+      created, creator = proposals[late[3]][0], proposals[late[3]][4]
+      began = max([st for st in next_calls.get(creator, []) if st < created], default=0)
+      # Had a co-worker already been handed the earlier trial (still pending
+      # when the later one was created) before the creator even asked?
+      sequential = any(h[3] == early[3] and h[2] != creator and h[0] < began and h[1] > created
+                       for h in hs)
+      bad('group-split', 'sequential-next' if sequential else 'concurrent-next',
+          f'group {g}: worker {early[2]} held pending trial {by_pid[early[3]][0].id} during '
+          f'stamps [{early[0]}, {early[1]}) and worker {late[2]} held the different pending '
+          f'trial {by_pid[late[3]][0].id} during [{late[0]}, {late[1]}); the latter was created '
+          f'at {created} by worker {creator}, whose next() began at {began}')
   return out, dict(private=False, trials=len(trials), finish_race=finish_race)
 
 
